@@ -126,6 +126,11 @@ def drift_job(params):
                         prove_isolated('corrected step = step - reference mean', D[t, a, c] == E[t, a, c], given=L[c], timeout_ms=60000)
                     prove_isolated('mean displacement of the reference species is zero in every frame of the result',
                                    core.ssum([E[t, a, c] for a in ref]) == 0)
+            # the corrected trajectory is a new object: the source still reports its own steps
+            Dsrc = traj.displacements
+            for idx in np.ndindex(D.shape):
+                prove_isolated('the source trajectory is not altered by the correction (its steps are unchanged)', Dsrc[idx] == d[idx],
+                               given=L[idx[2]], timeout_ms=60000)
             prove('species unchanged', list(res.species) == list(traj.species))
             prove('lattice unchanged', np.array_equal(np.asarray(res.lattice, dtype=float), np.asarray(traj.lattice, dtype=float)))
             prove('time step and metadata unchanged', res.time_step == traj.time_step and res.metadata == traj.metadata)
@@ -205,6 +210,8 @@ def drift_job_replay(params, inputs):
         return True, 'outside the claim (step reaches the half cell)'
     if D.shape != d.shape or not np.all(np.isfinite(D)) or np.abs(D - exp).max() > 1e-9:
         return False, f'corrected steps {D.tolist()} != steps - reference mean {exp.tolist()}; {desc}'
+    if np.abs(traj.displacements - d).max() > 1e-9:
+        return False, f'the source trajectory was altered by apply_drift_correction: steps {traj.displacements.tolist()} != {d.tolist()}; {desc}'
     if np.abs(D[:, ref].mean(axis=1)).max() > 1e-9:
         return False, f'mean displacement of the reference species not zero; {desc}'
     if np.abs(res.positions[0] - traj.positions[0]).max() > 1e-9 or list(res.species) != list(traj.species) \
